@@ -16,7 +16,10 @@ def sh(cmd, cwd=None):
 dst = "/verif/seeded/" + name
 os.makedirs(dst, exist_ok=True)
 for f in glob.glob(src + "/*"):
-    shutil.copy(f, dst)
+    if os.path.isdir(f):
+        shutil.copytree(f, os.path.join(dst, os.path.basename(f)), dirs_exist_ok=True)
+    else:
+        shutil.copy(f, dst)
 meta = json.load(open(dst + "/meta.json")) if os.path.exists(dst + "/meta.json") else {}
 demo_cmd = ""
 if os.path.exists(dst + "/demo_cmd.txt"):
@@ -24,6 +27,8 @@ if os.path.exists(dst + "/demo_cmd.txt"):
     for line in open(dst + "/demo_cmd.txt").read().splitlines():
         if "go test" in line or "go run" in line:
             demo_cmd = line.strip().strip("`")
+            if "go test" in demo_cmd:
+                demo_cmd = demo_cmd[demo_cmd.index("go test"):]
             break
     # run it in the scratch worktree, not in the agent's directory
     demo_cmd = re.sub(r"cd /tmp/seed/C\d+\s*&&\s*", "", demo_cmd)
@@ -42,18 +47,22 @@ try:
         b = sh("go build ./... && go vet ./...", cwd=wt)
         res["compiles_and_vets"] = b.returncode == 0
         t = sh("go test -vet=off -count=1 ./...", cwd=wt)
+        if t.returncode != 0 and "TestEventCreatedAtMiddleware" in t.stdout:
+            # time-based test that also flakes on the unchanged tree: one retry
+            res["existing_tests_retry"] = "TestEventCreatedAtMiddleware flaked (also flakes on the unchanged tree); retried once"
+            t = sh("go test -vet=off -count=1 ./...", cwd=wt)
         res["existing_tests_pass_with_change"] = t.returncode == 0
         if t.returncode != 0:
             res["test_tail"] = t.stdout[-400:]
         # demo files
-        demos = [f for f in glob.glob(dst + "/*") if f.endswith("_test.go") or (f.endswith(".go") and "demo" in os.path.basename(f))]
+        demos = [f for f in glob.glob(dst + "/**/*", recursive=True) if f.endswith(("_test.go", "_test.go.txt")) or (f.endswith(".go") and "demo" in os.path.basename(f))]
         # place demo next to where demo_cmd runs it: try the packages named in the command, default root
         target = wt
         for tok in demo_cmd.split():
             if tok.startswith("./") and os.path.isdir(os.path.join(wt, tok)):
                 target = os.path.join(wt, tok)
         for d in demos:
-            shutil.copy(d, target)
+            shutil.copy(d, os.path.join(target, os.path.basename(d)[:-4] if d.endswith(".txt") else os.path.basename(d)))
         d1 = sh(demo_cmd, cwd=wt)
         res["demo_fails_with_change"] = d1.returncode != 0
         res["demo_output_with_change"] = (d1.stdout + d1.stderr)[-500:]
